@@ -82,13 +82,15 @@ PROP = 'C18'
 LEVEL = 'exploration'
 RUNS = {'quick': 80000, 'thorough': 3000000}
 CHUNK = 500
-RULE = ("one run = chain of 1-2 Repeat blocks (explicit / implicit via Event(repeat=,count=), "
+RULE = ("one run = chain of 1-2 (12 % of the random runs: 3) Repeat blocks (explicit / implicit via Event(repeat=,count=), "
         "count in {None,0,1,3}, interval numeric or string) fed by two sender blocks and "
         "external events: 1-4 events of the repeated type plus 0-2 of other types, each aimed "
         "at a predicted repetition instant of one of the Repeat blocks with an offset in "
         "{-0.1s..-1us, 0, +1us..+0.1s} or placed freely, optionally sent directly to the second "
         "Repeat, optionally bounced 0-2 loop iterations inside the instant; shutdown aimed the "
-        "same way; loop knobs: half of the runs latency-free and zero-cost (exact timing is "
+        "same way, 30 % of the random runs end by abort(exc) / Task.cancel() of the simulation "
+        "task / a 'shutdown' or 'abort' event to _ctrl (external or sent by a circuit block) "
+        "instead of shutdown(); loop knobs: half of the runs latency-free and zero-cost (exact timing is "
         "demanded), the rest with drawn latency/cost (one-sided bounds); run indices below 1536 "
         "walk topology x count x number of events systematically; a fifth of the other runs has "
         "a bystander block with a slow asynchronous initialisation (ending shortly after a "
@@ -105,7 +107,9 @@ REACH_EXPECTED = ['tie_event_first', 'tie_repetition_first', 'same_instant_event
                   'stop_with_pending_repetition', 'stop_at_repetition_instant', 'late_repetition',
                   'bounced_event', 'string_interval', 'event_without_source',
                   'event_during_slow_init', 'repetition_during_slow_init',
-                  'init_completed_after_repetition', 'stop_during_slow_init']
+                  'init_completed_after_repetition', 'stop_during_slow_init',
+                  'chain_of_three', 'stop_kind_abort', 'stop_kind_cancel',
+                  'stop_kind_ctrl_shutdown', 'stop_kind_ctrl_abort', 'stop_kind_sender_ctrl']
 ASSUMPTIONS = [
     "latency-free zero-cost stratum: a repetition is demanded exactly 'interval' after the "
     "previous (re-)send, compared with 1 microsecond tolerance (float rounding of loop.time())",
@@ -126,6 +130,8 @@ VALUES = [0, 1, True, None, 'on', 'off', 2.5, [1, 2], {'a': 1}, '']
 ETYPES = ['put', 'E1', 'set']
 TOPOLOGIES = [            # (implicit flags of the chain, first element is fed by the senders)
     [False], [True], [False, False], [True, False], [False, True], [True, True]]
+TOPOLOGIES3 = [[False, False, False], [True, False, True], [False, True, False], [True, True, True]]
+STOP_KINDS = ['shutdown', 'abort', 'cancel', 'ctrl_shutdown', 'ctrl_abort', 'sender_ctrl']
 
 
 def interval_s(interval):
@@ -152,6 +158,8 @@ def gen(rng, tier, index=0):
         exact = bool((k // 4) % 2)
     else:
         topo = rng.choice(TOPOLOGIES if rng.random() < 0.85 else TOPOLOGIES[:2])
+        if rng.random() < 0.12:
+            topo = rng.choice(TOPOLOGIES3)      # beyond the stated scope: chains of three
         count0 = rng.choice(COUNTS)
         count1 = rng.choice(COUNTS)
         nmatch = rng.randint(1, 4)
@@ -160,10 +168,10 @@ def gen(rng, tier, index=0):
     chain = []
     for i, implicit in enumerate(topo):
         interval = rng.choice(INTERVALS)
-        if i == 1 and rng.random() < 0.35:
+        if i >= 1 and rng.random() < 0.35:
             interval = chain[0]['interval']       # equal deadlines in the chain
         chain.append({'name': f"r{i + 1}", 'implicit': implicit, 'interval': interval,
-                      'count': count0 if i == 0 else count1,
+                      'count': count0 if i == 0 else count1 if i == 1 else rng.choice(COUNTS),
                       'byname': rng.random() < 0.3})
     knobs = gen_knobs(rng, latency=not exact, cost=not exact, ties=True)
     if exact:
@@ -199,7 +207,7 @@ def gen(rng, tier, index=0):
                              3 * max_iv + 10_000])
         idx = 0
         if len(chain) > 1 and rng.random() < 0.25:
-            idx = 1
+            idx = 1 if len(chain) == 2 else rng.choice([1, 2])
         data = {'k': n + 1, 'value': rng.choice(VALUES)}
         if rng.random() < 0.3:
             data['note'] = rng.choice(['x', [3], None])
@@ -217,6 +225,8 @@ def gen(rng, tier, index=0):
     plan = {'knobs': knobs, 'etype': etype, 'chain': chain, 'ops': ops,
             'stop_at': round(stop / 1e6, 6), 'stop_hops': rng.choice([0, 0, 1, 2]),
             'drain': round(5 * max_iv / 1e6 + 1.0, 6)}
+    if index >= 1536 and rng.random() < 0.3:
+        plan['stop_kind'] = rng.choice(STOP_KINDS[1:])
     if index >= 1536 and rng.random() < 0.2:
         # slow asynchronous initialisation of ANOTHER block: the events (legal as soon as
         # is_ready() is true) reach the Repeat blocks before the circuit is initialised
@@ -252,7 +262,7 @@ def build(run, plan):
     etype = plan.get('etype')
     chain = plan.get('chain')
     if not isinstance(etype, str) or not etype or not isinstance(chain, list) \
-            or not 1 <= len(chain) <= 2:
+            or not 1 <= len(chain) <= 3:
         raise PlanError('bad chain/etype')
     knobs = run.knobs
     exact = not (knobs['latency_ns'] or knobs['cost_ns'])
@@ -290,6 +300,8 @@ def build(run, plan):
     except Exception as err:
         raise PlanError(f"circuit construction: {type(err).__name__}: {err}") from None
     monitors = []
+    if len(chain) == 3:
+        run.fired('reach:chain_of_three')
     for i, c in enumerate(chain):
         mon = RepeatMonitor(blocks[i].name, etype, int(round(interval_s(c['interval']) * 1e9)),
                             c['count'], slack_ns=slack, tol_ns=tol)
@@ -314,6 +326,15 @@ def build(run, plan):
                 ports[f"f{i}:{op['et']}"] = edzed.Event(blocks[i], op['et'])
             except Exception as err:
                 raise PlanError(f"Event: {err}") from None
+    stop_kind = plan.get('stop_kind', 'shutdown')
+    if stop_kind not in STOP_KINDS:
+        raise PlanError('bad stop_kind')
+    if stop_kind.startswith('ctrl') or stop_kind == 'sender_ctrl':
+        try:
+            ports['ctrl_sd'] = edzed.Event('_ctrl', 'shutdown')
+            ports['ctrl_ab'] = edzed.Event('_ctrl', 'abort')
+        except Exception as err:
+            raise PlanError(f"Event: {err}") from None
     senders = {name: Sender(name, x_ports=ports) for name in ('sa', 'sb')}
     slow = plan.get('slow_init')
     if slow is not None:
@@ -533,6 +554,26 @@ def execute(plan, trace=False):
                 mon.required = False
             run.log('stop-requested')
             err = None
+            stop_kind = plan.get('stop_kind', 'shutdown')
+            expected = None
+            # termination other than shutdown(): nothing may be re-sent afterwards either
+            if stop_kind != 'shutdown' and circuit.is_ready():
+                run.fired('reach:stop_kind_' + stop_kind)
+                try:
+                    if stop_kind == 'abort':
+                        expected = RuntimeError('driver abort')
+                        circuit.abort(expected)
+                    elif stop_kind == 'cancel':
+                        simtask.cancel()
+                    elif stop_kind == 'ctrl_shutdown':
+                        edzed.ExtEvent(circuit.findblock('_ctrl'), 'shutdown').send()
+                    elif stop_kind == 'ctrl_abort':
+                        expected = edzed.EdzedCircuitError
+                        edzed.ExtEvent(circuit.findblock('_ctrl'), 'abort').send(error='drv')
+                    elif stop_kind == 'sender_ctrl':
+                        edzed.ExtEvent(senders['sb'], 'go').send(port='ctrl_sd', payload={})
+                except Exception as exc:    # pylint: disable=broad-except
+                    run.log('stop-exc', exc)
             try:
                 await circuit.shutdown()
             except Exception as exc:    # pylint: disable=broad-except
@@ -541,6 +582,9 @@ def execute(plan, trace=False):
                 await waiter
             st['stopped'] = True
             run.log('stopped', err)
+            if err is not None and expected is not None and (
+                    err is expected or isinstance(expected, type) and isinstance(err, expected)):
+                err = None
             if err is not None and not st['dead'] and not run.violations:
                 run.violate(f"C18/simulation-error/{type(err).__name__}",
                             f"the simulation ended with {canon(err)}")
